@@ -941,7 +941,7 @@ def search(chk: Check, hints: list, budget_s: float) -> None:
     t0 = time.time()
     tried = found = 0
     todo = [(a, b, [], None, {}) for a, b in CORPUS_SQL]
-    for h in hints:
+    for h in hints[:25]:
         todo.append((h["src"], h["tgt"], [tuple(p) for p in h["pre"]], None, {"f": h["f"], "t": h["t"][0] / h["t"][1]}))
     corpus_dir = os.path.join(os.path.dirname(os.path.dirname(os.path.dirname(os.path.abspath(__file__)))), "corpus", "C20")
     if os.path.isdir(corpus_dir):
@@ -981,6 +981,8 @@ def search(chk: Check, hints: list, budget_s: float) -> None:
                 report(chk, kind, detail, parse(a), parse(b), tuple(pre_idx), share, kw)
 
     for item in todo:
+        if len(chk.violations) >= 3 or time.time() - t0 > 2 * budget_s:
+            break
         consider(*item)
     while time.time() - t0 < budget_s and len(chk.violations) < 3:
         kind, a, b = gen_pair(rng)
